@@ -27,6 +27,27 @@ CHECKS = {
                       "under prepare+step are not handed to tsrun_run (it has no budget) and count as inconclusive",
         "assumptions": ["the scripted host (harness/src/engine.rs) behaves identically over the Rust and the C API"],
     },
+    "C05": {
+        "engines": NATIVE,
+        "level": "exploration",
+        "rule": "source texts: 52 nesting/length families (brackets of every kind, unary/binary/conditional/arrow/template chains, "
+                "type-annotation nesting, call/member chains, declarations, patterns, long tokens) at doubling depths 2..16384 "
+                "(thorough: ..131072); every prefix, single-token deletion, duplication, swap and vocabulary replacement of the "
+                "statement snippets, the TypeScript pair sources and composed corpus programs; token soups over a 130-token "
+                "vocabulary; random UTF-8 with hostile escapes; escape forms x literal contexts. Each text is lexed, parsed and "
+                "compiled in a forked child with an 8 MiB stack; every text is distinct by construction modulo vocabulary collisions",
+        "floor": {"quick": 40000, "thorough": 400000},
+        "unit_timeout": {"default": 1500},
+        "technique": "runtime monitoring: process-exit oracle (panic / signal) in forked children plus H2 front-end work counters "
+                     "(tokens lexed incl. re-lexing, parser advances) judged for growth across doubling depths",
+        "level_text": "Every generated text must come back as Ok or Err from the front end: a panic, a stack overflow or an abort is a "
+                      "violation. For each nesting family the counted work at depth 2d over depth d must not exceed 9 at two consecutive "
+                      "doublings (cubic growth allowed, exponential not), and no short input may cost more than 200*n^2 work units. "
+                      "Wall-clock never decides.",
+        "level_note": "'bounded time' is decided on the H2 counters, so work not visible to them (e.g. inside the compiler after "
+                      "parsing) is only seen through the ops-emitted counter; depth of nesting explored is capped",
+        "assumptions": ["8 MiB is the stack a host gives the front end (the default main-thread stack)"],
+    },
     "C01": {
         "engines": NATIVE,
         "golden": "C01A.tsv",
